@@ -4,7 +4,7 @@ import json, subprocess, sys, os
 sys.path.insert(0, os.path.dirname(__file__))
 import props
 log = subprocess.run(['git', '-C', '/repo', 'log', '--format=%h %s'], capture_output=True, text=True).stdout.splitlines()
-hooks = [l.split()[0] for l in log if l.split(' ', 1)[1].startswith('verif hook')]
+hooks = [l.split()[0] for l in log if l.split(' ', 1)[1].startswith(('verif hook', 'verif:'))]
 m = {
  "version": 1,
  "setup_cmd": "./setup.sh",
